@@ -82,7 +82,10 @@ def linear1d(ctx, rng, idx):
     a = float(rng.choice([1.0, -1.0, 10 ** rng.uniform(-3, 3) * rng.choice([-1, 1])]))
     b = float(rng.uniform(-2, 2) * abs(a) * mesh.length)
     model = conv.model(float(rng.choice([1.0, -1.0])))
-    q = a * mesh.xc + b
+    # cell values of the profile = its cell AVERAGES over the cells the faces define, i.e. its values at the face midpoints computed here
+    # from mesh.xf (not read from the library's own idea of a cell centre, which would keep a misplaced centre self-consistent)
+    xm_ = 0.5 * (np.asarray(mesh.xf, float)[1:] + np.asarray(mesh.xf, float)[:-1])
+    q = a * xm_ + b
     bc = {"type": "dirichlet", "prim": [0.0]}
     disc = md.fvm(model, mesh, num, bcL=bc, bcR=bc)
     ctx.describe(recon=rname, mesh=mdesc, a=a, b=b)
@@ -239,7 +242,7 @@ def reuse(ctx, rng, idx):
     ctx.describe(recon=rname, meshA=dA, meshB=dB, a=a, b=b)
     md.fvm(model, meshA, num, bcL=bc, bcR=bc).rhs(ffield.fdata(model, meshA, [a * meshA.xc + b + rng.uniform(-1, 1, n)]))      # first use (any data)
     discB = md.fvm(model, meshB, num, bcL=bc, bcR=bc)
-    q = a * meshB.xc + b
+    q = a * 0.5 * (np.asarray(meshB.xf, float)[1:] + np.asarray(meshB.xf, float)[:-1]) + b
     discB.rhs(ffield.fdata(model, meshB, [q]))
     exact = a * meshB.xf + b
     scale = abs(a) * (meshB.xf[-1] - meshB.xf[0]) + abs(b) + 1e-300
